@@ -446,6 +446,10 @@ def composites(check, prog, canon):
                   'every member is translated by one and the same vector',
                   prog.loc(q, fd), fail_detail='translated builds %s' % show(v)[:200])
     scatterer_translated(check, prog)
+    argument_forms(check, prog)
+    # set-operation scatterers move rigidly too (rule shared with C20)
+    from . import c20
+    c20.csg_motion(check, prog)
 
 
 def scatterer_translated(check, prog):
@@ -477,6 +481,54 @@ def scatterer_translated(check, prog):
     check.require(ok, 'M6-rigid-translation', 'Scatterer.translated',
                   'a copy whose centre is the old centre plus the vector',
                   prog.loc(q, fd))
+
+
+def argument_forms(check, prog):
+    """translated / rotated accept either one 3-vector or three numbers: the
+    vector form is taken iff the 2nd argument is None, the three-number form iff
+    the 2nd and 3rd are given, anything else is refused."""
+    from .common import norm_cond
+    SCQ = 'holopy.scattering.scatterer.'
+    for q in (SCQ + 'scatterer.Scatterer.translated',
+              SCQ + 'composite.Scatterers.translated',
+              SCQ + 'composite.Scatterers.rotated'):
+        fd = prog.func(q)
+        loc = prog.loc(q, fd)
+        a1, a2, a3 = [sym(a.arg) for a in fd.args.args[1:4]]
+        it = Interp(prog, max_depth=1, opaque=['holopy.core.utils.ensure_array',
+                                               MATH + 'rotate_points'])
+        res = it.analyze(q)
+        short = q.split('.')[-2] + '.' + q.split('.')[-1]
+        A = intern(('cmp', 'is', a2, NONE))
+        C = intern(('cmp', 'is not', a2, NONE))
+        D = intern(('cmp', 'is not', a3, NONE))
+        ok = len(res.raises) == 1 and 'InvalidScatterer' in show(res.raises[0].value)
+        vecform = None
+        if ok:
+            cs = norm_cond(res.raises[0].cond)
+            ok = len(cs) == 2 and cs[0][1] is False and cs[1][1] is False and \
+                cs[0][0][0] == 'bool' and cs[0][0][1] == 'and' and \
+                len(cs[0][0][2]) == 2 and A in cs[0][0][2] and \
+                cs[1][0] == ('bool', 'and', (C, D))
+            if ok:
+                vecform = cs[0][0]
+                other = [x for x in vecform[2] if x != A][0]
+                ok = other[0] == 'call' and other[1] == 'len' and \
+                    any(x == a1 for x in subterms(other))
+        # where the value is chosen, the vector form goes with the vector test
+        if ok:
+            sel = [x for x in subterms(res.ret) if x[0] == 'ite' and x[1] == vecform]
+            ok = bool(sel)
+            for x in sel:
+                uses3 = any(y in (a2, a3) for y in subterms(x[2]))
+                uses1 = any(y == a1 for y in subterms(x[2]))
+                if uses3 or not uses1:
+                    ok = False
+        check.require(ok, 'M6-argument-forms', short,
+                      'one 3-vector (2nd argument None) or three numbers (2nd and 3rd '
+                      'given); anything else raises InvalidScatterer', loc,
+                      fail_detail='raises under %s' % [
+                          [(show(t)[:80], p) for t, p in o.cond] for o in res.raises])
 
 
 def setterless(check, prog):
